@@ -45,7 +45,7 @@ inductive Ans
   | ids (l : List Nat)                             -- `busy_trial_ids`, `trials_checkpoints_can_be_removed`
   | sugg (s : Sugg)                                -- `suggest`
   | clock (t : Rat)                                -- `status.wallclock_time`
-  | statuses (sd : List (Nat × St))                -- `_all_trial_results(self.trial_ids)` in `stop_all`
+  | status (st : St)                               -- reading `trial.status` in `stop_all`
 deriving Repr, Inhabited
 
 /-- events of the `TunerCallback` interface. -/
@@ -79,6 +79,7 @@ inductive Call
   | resume (t : Nat) (cfg : Option Nat)
   | removable
   | allResults
+  | status (t : Nat)
   | exit
 deriving DecidableEq, Repr, Inhabited
 
@@ -112,7 +113,7 @@ inductive Pc
   | sleepWait | busy | sleepSched
   | suggest | startCmd | copyCmd | addS | startCb | resumeCmd | resumeCb
   | loopEnd | removable | delRem
-  | finTuningEnd | finAll | finStop | finStopDel | finDel | hfOut | hfErr
+  | finTuningEnd | finAll | finStatus | finStop | finStopDel | finDel | hfOut | hfErr
   | done
 deriving DecidableEq, Repr, Inhabited
 
@@ -212,11 +213,12 @@ def finDelNext (s : LState) : LState × Call :=
 def finDelAll (s : LState) : LState × Call :=
   if s.cfg.deleteCkpt then finDelNext { s with dels := List.range s.nStarted } else finMark s
 
-/-- `for trial in trial_results: if trial.status == in_progress: self.stop_trial(trial.trial_id)`. -/
-def finStopNext (s : LState) : LState × Call :=
+/-- `for trial in trial_results: if trial.status == in_progress: self.stop_trial(trial.trial_id)`
+of `stop_all`: the status of each trial is read when its turn comes. -/
+def finStatusNext (s : LState) : LState × Call :=
   match s.dels with
   | [] => finDelAll s
-  | t :: rest => ({ s with pc := .finStop, t := t, dels := rest }, .stop t)
+  | t :: rest => ({ s with pc := .finStatus, t := t, dels := rest }, .status t)
 
 /-- entering the `finally` block (`print_best_metric_found` prints only): callbacks' `on_tuning_end`. -/
 def enterFin (s : LState) : LState × Call := ({ s with pc := .finTuningEnd }, .cb .tuningEnd)
@@ -476,17 +478,20 @@ def stepCore (s : LState) (a : Ans) : LState × Call :=
     | .ret => ({ s with pc := .finAll, stored := if s.cfg.store then some s.rows else none }, .allResults)
     | _ => exitRaise s
   | .finAll => match a with
-    | .statuses sd =>
-      finStopNext { s with dels := (sd.filter (fun kv => kv.2 = .inProgress)).map (·.1),
-                           visible := sd.map (·.1), bst := aupdate s.bst sd }
+    | .ids l => finStatusNext { s with dels := l, visible := l }
+    | _ => exitRaise s
+  | .finStatus => match a with
+    | .status st =>
+      let s1 := { s with bst := aset s.t st s.bst }
+      if st = .inProgress then ({ s1 with pc := .finStop }, .stop s1.t) else finStatusNext s1
     | _ => exitRaise s
   | .finStop => match a with
     | .ret =>
       let s1 := { s with bst := aset s.t .stopped s.bst }
-      if s1.cfg.deleteCkpt then ({ s1 with pc := .finStopDel }, .delete s1.t) else finStopNext s1
+      if s1.cfg.deleteCkpt then ({ s1 with pc := .finStopDel }, .delete s1.t) else finStatusNext s1
     | _ => exitRaise s
   | .finStopDel => match a with
-    | .ret => finStopNext { s with deleted := s.t :: s.deleted }
+    | .ret => finStatusNext { s with deleted := s.t :: s.deleted }
     | _ => exitRaise s
   | .finDel => match a with
     | .ret => finDelNext { s with deleted := s.t :: s.deleted }
